@@ -400,10 +400,11 @@ func (c *Config) validateLogging() error {
 
 	validLogFormats := map[string]bool{
 		"json":    true,
+		"text":    true, // documented default, used by the shipped sample files
 		"console": true,
 	}
 	if c.Logging.Format != "" && !validLogFormats[c.Logging.Format] {
-		return fmt.Errorf("invalid log format: %s (valid: json, console)", c.Logging.Format)
+		return fmt.Errorf("invalid log format: %s (valid: json, text, console)", c.Logging.Format)
 	}
 	return nil
 }
